@@ -37,7 +37,8 @@ LEVEL_TEXT = (
     "reads inside the read sequence with the relaxed oracle 'may fail or fall "
     "back along the documented chain, never a wrong zone', and checks that "
     "file handles are closed on every exit path. Decoding itself is "
-    "input sampling and is reported as such.")
+    "input sampling and is reported as such."
+    " Session 3 added: stat metadata in the simulated file system with the event 'file replaced by another zone of the same length under the same / a new stat stamp', archive entry orders (links before targets), a hard link to a root-level namesake, forward-only and read()-only streams, the local-time file route of gettz(), sub-second instants, permuted type tables, up to 256 local time types, abbreviations stored as tails of others.")
 LEVEL_NOTE = (
     "Trusted: the harness' RFC 8536 reader (version-1 block, which is what "
     "dateutil decodes) and TZif writer; the in-memory file system behind "
